@@ -371,6 +371,7 @@ type TraceOpts struct {
 	MaxIter  int                                                 // loop body repetitions (default 1)
 	Access   map[*types.Var]bool                                 // report accesses to these fields
 	NonNil   func(f *types.Func) bool                            // calls whose (first) result is never nil
+	PassArg  map[*types.Func]int                                 // calls whose result is non-nil whenever argument i is non-nil
 	MaxPaths int
 	NoHavoc  bool
 	NoMerge  bool                  // do not join call-free ifs over basic-typed assignments
@@ -1296,6 +1297,11 @@ func (in *Interp) evalCall(st *state, x *ast.CallExpr) Val {
 	case *types.Func:
 		if in.Opts.NonNil != nil && in.Opts.NonNil(o) {
 			return Val{K: VNonNil}
+		}
+		if i, ok := in.Opts.PassArg[o]; ok && i < len(x.Args) {
+			if v := in.eval(st, x.Args[i]); v.K == VNonNil {
+				return v
+			}
 		}
 		if v, ok := in.inlinePure(st, o, x); ok {
 			return v
